@@ -4,8 +4,10 @@ import (
 	"io"
 	"log"
 	"os"
+	"runtime"
 	"testing"
 	"testing/synctest"
+	"time"
 
 	"verif/engine/explore"
 )
@@ -16,6 +18,26 @@ func TestWorker(t *testing.T) {
 		t.Skip("worker mode only")
 	}
 	log.SetOutput(io.Discard)
+	// real-time watchdog, started outside the bubble
+	go func() {
+		last, idle := int64(-1), 0
+		for {
+			time.Sleep(5 * time.Second)
+			cur := explore.Progress.Load()
+			if !explore.Busy.Load() || cur != last {
+				last, idle = cur, 0
+				continue
+			}
+			idle++
+			if idle >= 6 {
+				buf := make([]byte, 4<<20)
+				n := runtime.Stack(buf, true)
+				os.Stderr.Write([]byte("\nEXPLORER STALL: no execution completed for 30 s\n"))
+				os.Stderr.Write(buf[:n])
+				os.Exit(7)
+			}
+		}
+	}()
 	synctest.Test(t, func(t *testing.T) {
 		explore.WorkerMain()
 	})
